@@ -59,7 +59,8 @@ func genCfg(r *vs.Rand, allowRolling bool) scfg {
 		}
 		for {
 			c.Method = r.Pick(methods)
-			if allowRolling || (c.Method != "RollingRecreate" && c.Method != "RollingInPlace") {
+			isRolling := c.Method == "RollingRecreate" || c.Method == "RollingInPlace"
+			if !isRolling || (allowRolling && (cfg.ParentNamespaced || r.Chance(15))) {
 				break
 			}
 		}
